@@ -266,7 +266,8 @@ SchedInject(st0, s) ==
              tk == IF s.a = 2 THEN [tk0 EXCEPT !.p = s.b, !.fur = st0.now + s.b] ELSE tk0
              st1 == Spawn(st0, tk)
              st2 == AddSub(st1, SubRec(IF s.a = 3 THEN "tasksub" ELSE "task", Len(st1.nodes), 0)) IN
-         [st2 EXCEPT !.handles = Append(@, Len(st2.subs))]
+         [st2 EXCEPT !.handles = Append(@, Len(st2.subs)), !.hcre = Append(@, <<st0.cur, st0.callno>>),
+                     !.tcre = [i \in 1..Len(st2.tasks) |-> IF i <= Len(st0.tcre) THEN st0.tcre[i] ELSE <<st0.cur, st0.callno>>]]
     [] s.k = "fresolve" ->        \* the scripted future a becomes ready with (t, v); a future resolves once
          IF st0.futs[s.a] = <<>> THEN [st0 EXCEPT !.futs[s.a] = <<<<s.t, s.v>>>>] ELSE st0
     [] s.k = "spush" ->           \* the scripted stream a yields an item / an error / its end
